@@ -1541,11 +1541,15 @@ impl<'a> Driver<'a> {
                 continue;
             }
             let MessageType::Request(req) = s.msg.message_type() else { continue };
-            let Some(&i) = self.net.by_addr.get(&s.to) else { continue };
+            // (0.0.0.0:port — what `local_addr()` of a node bound to every interface reports — reaches the local
+            // peer on that port, which answers from its own address)
+            let found = self.net.by_addr.get(&s.to).copied().or_else(|| if s.to.ip().is_unspecified() { self.net.peers.iter().position(|p| p.addr.port() == s.to.port()) } else { None });
+            let Some(i) = found else { continue };
+            let peer_addr = self.net.peers[i].addr;
             if !self.net.peers[i].alive || self.net.peers[i].mode == 1 {
                 continue;
             }
-            let from = s.to;
+            let from = peer_addr;
             let mt = self.net.reply(i, req, self.s.addr);
             let is_put = matches!(req.request_type, RequestTypeSpecific::Put(_));
             let ro = self.net.peers[i].read_only || (is_put && self.net.peers[i].ro_puts);
@@ -2442,6 +2446,25 @@ pub fn run(out: &mut Out, seed: u64, thorough: bool, replay: Option<&str>) {
         d.out.mark_distinct(fnv(format!("D3xx{code}{n_err}{mutable}").as_bytes()));
         d.s.shutdown();
     }
+    // ---- D5 (C08, C17): one of three storing nodes holds a newer seq (and rejects the write with 302, or with 301
+    //      when the write carries a cas), the other two accept: no majority rejected the put, it returns Ok
+    for with_cas in [false, true] {
+        t0 += 10_000_000_000_000;
+        let mut net = VNet::new(&mut rng, 3, true);
+        let newer = MutableItem::new(&key_from_seed(9), b"held by one node", 7, Some(b"d5"));
+        net.peers[2].muts.insert(*newer.target(), (newer.value().to_vec(), *newer.key(), newer.seq(), *newer.signature()));
+        net.peers[2].put_reply = if with_cas { 301 } else { 302 };
+        let boot = vec![net.peers[0].addr];
+        let mut d = Driver::new(out, rng.next(), net);
+        d.begin("c", &boot, None, rng.next() % 1_000_000 + 1, t0);
+        d.run_for(2 * SEC, 10 * MS);
+        let call = put_mut_call(9, 5, b"written to the others", Some(b"d5"), if with_cas { Some(4) } else { None });
+        d.api(format!("{call} expect=ok prop=C08"));
+        d.settle(20 * SEC, 10 * MS);
+        d.finish();
+        d.out.mark_distinct(fnv(format!("D5{with_cas}").as_bytes()));
+        d.s.shutdown();
+    }
     // ---- E: requests arriving at a client-mode node and at a server-mode node (C18)
     for mode in ["c", "s"] {
         for with_boot in [false, true] {
@@ -2570,7 +2593,7 @@ pub fn run(out: &mut Out, seed: u64, thorough: bool, replay: Option<&str>) {
     // ---- F: adaptive mode (C18): reachable at the voted address -> server after the next refresh;
     //         NATed (self-ping lost) -> stays a client
     //         (also with a single peer: one report of the address is enough)
-    for (reachable, explicit_server, n) in [(true, false, 6usize), (false, false, 6), (true, true, 6), (true, false, 1), (false, false, 1)] {
+    for (reachable, explicit_server, n) in [(true, false, 6usize), (false, false, 6), (true, true, 6), (true, false, 1), (false, false, 1), (false, true, 6), (false, true, 1)] {
         t0 += 10_000_000_000_000;
         let net = VNet::new(&mut rng, n, false);
         let boot = vec![net.peers[0].addr];
@@ -3649,6 +3672,13 @@ pub fn run(out: &mut Out, seed: u64, thorough: bool, replay: Option<&str>) {
         let g2 = d.api(format!("get_mut k={} salt={} seq=none", hex(key_from_seed(9).verifying_key().as_bytes()), hex(&salt)));
         d.settle(20 * SEC, 10 * MS);
         if !oversize {
+            let gr = d.api(format!("get_mut_recent k={} salt={}", hex(key_from_seed(9).verifying_key().as_bytes()), hex(&salt)));
+            d.settle(20 * SEC, 10 * MS);
+            if !d.results(gr).iter().any(|r| r.contains(":recent:") && r.contains("seq=7 ")) {
+                d.out.violation("C16", "newest-item-missed", format!("every storing node holds and serves seq 7 (a 1000-byte value under a 64-byte salt, answers of about 1.7 kB) but get_mutable_most_recent returned {:?}", d.results(gr).iter().map(|r| r.chars().take(60).collect::<String>()).collect::<Vec<_>>()));
+            }
+        }
+        if !oversize {
             // (C07) every answer of this lookup is about 1.7 kB long: the nodes it lists are candidates like
             // any others (after the cache entry of the first lookup has been used up by these two)
             d.run_for(2 * SEC, SEC);
@@ -3923,6 +3953,12 @@ pub fn run(out: &mut Out, seed: u64, thorough: bool, replay: Option<&str>) {
         d.api(format!("get_mut k={} salt={} seq=none expect=some prop=C01", hex(key_from_seed(9).verifying_key().as_bytes()), hex(b"sh")));
         d.settle(20 * SEC, 10 * MS);
         d.shadow = 0;
+        d.run("snap".into());
+        if let Some(sn) = d.s.last_snapshot.clone() {
+            if sn.routing_table.is_empty() {
+                d.out.violation("C14", "answering-peers-never-learned", format!("twelve peers answered every request of this node in time (each answer preceded by a datagram under the same transaction id that is not an answer, shadow mode {shadow}) and none of them is in the routing table"));
+            }
+        }
         d.finish();
         d.out.mark_distinct(fnv(format!("Z10{shadow}").as_bytes()));
         d.s.shutdown();
@@ -4020,6 +4056,147 @@ pub fn run(out: &mut Out, seed: u64, thorough: bool, replay: Option<&str>) {
         d.out.mark_distinct(fnv(format!("M4{kind}").as_bytes()));
         d.s.shutdown();
     }
+    // ---- Y (C01, C03, C05, C15): strangers write to a real server node and read from it, over KRPC.  Announcers
+    //      that share an IP (two hosts behind one NAT), a node id that announces again from another address,
+    //      19 / 20 / 21 announcers on one info hash, and a token used after the node moved to its secure id
+    for round in 0..3 {
+        t0 += 10_000_000_000_000;
+        let public = round == 2;
+        let net = VNet::new(&mut rng, 4, !public);
+        let boot = vec![net.peers[0].addr];
+        let mut d = Driver::new(out, rng.next(), net);
+        if public {
+            d.reachable = true;
+            d.begin_at("s", &boot, None, Some(Ipv4Addr::new(45, 9, 9, 9)), rng.next() % 1_000_000 + 1, t0);
+        } else {
+            d.begin("s", &boot, None, rng.next() % 1_000_000 + 1, t0);
+        }
+        let ih = Id::from_bytes(d.rng.id20()).expect("id");
+        // one request of a stranger and the node's replies to it
+        fn ask(d: &mut Driver, from: SocketAddrV4, rid: Id, rt: RequestTypeSpecific) -> Vec<Sent> {
+            let before = d.s.all_sent.len();
+            d.inject_request(from, rid, rt, false);
+            d.run_for(50 * MS, 10 * MS);
+            d.s.all_sent[before..].iter().filter(|x| x.to == from).cloned().collect()
+        }
+        fn token_of(replies: &[Sent]) -> Option<Vec<u8>> {
+            replies.iter().find_map(|r| match r.msg.message_type() {
+                MessageType::Response(ResponseSpecific::NoValues(a)) => Some(a.token.to_vec()),
+                MessageType::Response(ResponseSpecific::GetPeers(a)) => Some(a.token.to_vec()),
+                _ => None,
+            })
+        }
+        fn values_of(replies: &[Sent]) -> Vec<SocketAddrV4> {
+            replies.iter().flat_map(|r| match r.msg.message_type() {
+                MessageType::Response(ResponseSpecific::GetPeers(a)) => a.values.to_vec(),
+                _ => vec![],
+            }).collect()
+        }
+        let announce = |d: &mut Driver, from: SocketAddrV4, rid: Id, port: u16| -> bool {
+            let tok = token_of(&ask(d, from, rid, RequestTypeSpecific::GetPeers(GetPeersRequestArguments { info_hash: ih })));
+            let Some(tok) = tok else { return false };
+            let r = ask(d, from, rid, RequestTypeSpecific::Put(PutRequest { token: tok.into_boxed_slice(), put_request_type: PutRequestSpecific::AnnouncePeer(AnnouncePeerRequestArguments { info_hash: ih, port, implied_port: None }) }));
+            r.iter().any(|x| matches!(x.msg.message_type(), MessageType::Response(ResponseSpecific::Ping(_))))
+        };
+        if round == 0 {
+            d.run_for(2 * SEC, 10 * MS);
+            let nat = Ipv4Addr::new(10, 9, 0, 1);
+            let (ida, idb) = (Id::from_bytes(d.rng.id20()).expect("id"), Id::from_bytes(d.rng.id20()).expect("id"));
+            let a_ok = announce(&mut d, SocketAddrV4::new(nat, 1000), ida, 41001);
+            let b_ok = announce(&mut d, SocketAddrV4::new(nat, 2000), idb, 41002);
+            let reader = SocketAddrV4::new(Ipv4Addr::new(10, 9, 0, 9), 3000);
+            let rid = Id::from_bytes(d.rng.id20()).expect("id");
+            let got = values_of(&ask(&mut d, reader, rid, RequestTypeSpecific::GetPeers(GetPeersRequestArguments { info_hash: ih })));
+            for (ok, port, who) in [(a_ok, 41001u16, "first"), (b_ok, 41002, "second")] {
+                if ok && !got.contains(&SocketAddrV4::new(nat, port)) {
+                    d.out.violation("C01", "announced-peer-not-served", format!("the {who} of two announcers behind one IP was acknowledged (port {port}) and is not among the peers the node serves for that info hash: {:?}", got.iter().map(addr_s).collect::<Vec<_>>()));
+                    d.out.violation("C08", "acknowledged-value-not-served", format!("announce_peer (port {port}) was acknowledged by this node, which does not serve it: {:?}", got.iter().map(addr_s).collect::<Vec<_>>()));
+                }
+            }
+            // the id of the first announcer announces again, from another address
+            let moved = SocketAddrV4::new(Ipv4Addr::new(10, 9, 0, 5), 1000);
+            let m_ok = announce(&mut d, moved, ida, 41003);
+            let got = values_of(&ask(&mut d, reader, rid, RequestTypeSpecific::GetPeers(GetPeersRequestArguments { info_hash: ih })));
+            if m_ok && !got.contains(&SocketAddrV4::new(*moved.ip(), 41003)) {
+                d.out.violation("C03", "announce-not-recorded", format!("an announce_peer with a valid token from {} (port 41003) was acknowledged, but the node serves {:?} for that info hash: the sender's address is not recorded", addr_s(&moved), got.iter().map(addr_s).collect::<Vec<_>>()));
+                d.out.violation("C01", "announced-peer-not-served", format!("an acknowledged announce_peer from {} is not served: {:?}", addr_s(&moved), got.iter().map(addr_s).collect::<Vec<_>>()));
+            }
+        } else if round == 1 {
+            d.run_for(2 * SEC, 10 * MS);
+            let reader = SocketAddrV4::new(Ipv4Addr::new(10, 9, 3, 9), 3000);
+            let rid = Id::from_bytes(d.rng.id20()).expect("id");
+            for k in 0..22u8 {
+                let from = SocketAddrV4::new(Ipv4Addr::new(10, 9, 2, 1 + k), 4000);
+                let id = Id::from_bytes(d.rng.id20()).expect("id");
+                announce(&mut d, from, id, 5000 + k as u16);
+                if k >= 17 {
+                    let before = d.s.all_sent.len();
+                    let got = ask(&mut d, reader, rid, RequestTypeSpecific::GetPeers(GetPeersRequestArguments { info_hash: ih }));
+                    let _ = before;
+                    if d.s.alive && got.is_empty() {
+                        d.out.violation("C05", "request-unanswered", format!("a server that holds {} peers for an info hash did not answer get_peers for it", k + 1));
+                    }
+                }
+            }
+        } else {
+            // the token is issued before the node has confirmed its address and moved to its secure id
+            let from = SocketAddrV4::new(Ipv4Addr::new(51, 7, 7, 7), 6881);
+            let rid = Id::from_bytes(d.rng.id20()).expect("id");
+            d.run("snap".into());
+            let id0 = d.s.last_snapshot.as_ref().map(|sn| sn.id);
+            let tok = token_of(&ask(&mut d, from, rid, RequestTypeSpecific::GetPeers(GetPeersRequestArguments { info_hash: ih })));
+            d.run_for(5 * SEC, 10 * MS);
+            d.run("snap".into());
+            let id1 = d.s.last_snapshot.as_ref().map(|sn| sn.id);
+            d.out.count(if id0 != id1 { "y-token-across-rekey" } else { "y-no-rekey" });
+            if let Some(tok) = tok {
+                let r = ask(&mut d, from, rid, RequestTypeSpecific::Put(PutRequest { token: tok.into_boxed_slice(), put_request_type: PutRequestSpecific::AnnouncePeer(AnnouncePeerRequestArguments { info_hash: ih, port: 7000, implied_port: None }) }));
+                if d.s.alive && !r.iter().any(|x| matches!(x.msg.message_type(), MessageType::Response(ResponseSpecific::Ping(_)))) {
+                    d.out.violation("C15", "fresh-token-rejected", format!("an announce_peer with a token this node issued to the same address 5 s ago was answered {:?} (the node {} meanwhile)", r.iter().map(|x| x.line.chars().take(90).collect::<String>()).collect::<Vec<_>>(), if id0 != id1 { "moved to its secure id" } else { "kept its id" }));
+                }
+            }
+        }
+        d.run("snap".into());
+        d.finish();
+        d.out.mark_distinct(fnv(format!("Y{round}").as_bytes()));
+        d.s.shutdown();
+    }
+    // ---- Q3 (C13): the bootstrap address is 0.0.0.0:port — what `Info::local_addr()` of a server bound to every
+    //      interface reports and `examples/bootstrap.rs` passes on; the server answers from its own address
+    for n in [1usize, 4] {
+        t0 += 10_000_000_000_000;
+        let net = VNet::new(&mut rng, n, true);
+        let boot = vec![SocketAddrV4::new(Ipv4Addr::new(0, 0, 0, 0), net.peers[0].addr.port())];
+        let mut d = Driver::new(out, rng.next(), net);
+        d.begin("c", &boot, None, rng.next() % 1_000_000 + 1, t0);
+        let c = d.api("bootstrapped".into());
+        d.settle(20 * SEC, 10 * MS);
+        d.run("snap".into());
+        let size = d.s.last_snapshot.as_ref().map(|sn| sn.routing_table.len()).unwrap_or(0);
+        if size == 0 || !d.results(c).iter().any(|r| r.contains("true")) {
+            d.out.violation("C13", "live-bootstrap-not-joined", format!("the bootstrap server — given as 0.0.0.0:port — answered every request from its own address, but bootstrapped() says {:?} and the routing table holds {size} nodes", d.results(c)));
+        }
+        d.finish();
+        d.out.mark_distinct(fnv(format!("Q3{n}").as_bytes()));
+        d.s.shutdown();
+    }
+    // ---- D4 (C17): a put_mutable on an isolated node fails (no node to write to); a different item for the same
+    //      key follows.  Nothing is in flight: it fails the same way, not with a conflict
+    for (seq2, cas2) in [(6i64, None), (4, None), (6, Some(9i64))] {
+        t0 += 10_000_000_000_000;
+        let net = VNet::new(&mut rng, 1, true);
+        let boot: Vec<SocketAddrV4> = vec![];
+        let mut d = Driver::new(out, rng.next(), net);
+        d.begin("c", &boot, None, rng.next() % 1_000_000 + 1, t0);
+        d.run_for(SEC, 10 * MS);
+        d.api(format!("{} expect=no-closest-nodes prop=C17", put_mut_call(9, 5, b"first", Some(b"d4"), None)));
+        d.settle(20 * SEC, 10 * MS);
+        d.api(format!("{} expect=no-closest-nodes prop=C17", put_mut_call(9, seq2, b"second", Some(b"d4"), cas2)));
+        d.settle(20 * SEC, 10 * MS);
+        d.finish();
+        d.out.mark_distinct(fnv(format!("D4{seq2}{cas2:?}").as_bytes()));
+        d.s.shutdown();
+    }
     // ---- Z1 (C06): a node whose address has port 0 — nothing can be sent there — is among the closest to the
     //      target in the answers of honest peers.  The lookup asks everybody else, the request to port 0 stays
     //      outstanding until it expires, and every call returns
@@ -4040,8 +4217,13 @@ pub fn run(out: &mut Out, seed: u64, thorough: bool, replay: Option<&str>) {
         d.begin("c", &boot, None, rng.next() % 1_000_000 + 1, t0);
         d.run_for(2 * SEC, 10 * MS);
         let calls = [format!("find_node t={}", hex(target.as_bytes())), format!("get_peers ih={}", hex(target.as_bytes())), format!("announce ih={} port=7000", hex(target.as_bytes()))];
-        d.api(calls[round % 3].clone());
-        d.settle(20 * SEC, 10 * MS);
+        // (C07: an answer that lists the port-0 node next to others is an answer like any other)
+        if round % 3 == 2 {
+            d.api(calls[2].clone());
+            d.settle(20 * SEC, 10 * MS);
+        } else {
+            d.lookup_and_check_closure(calls[round % 3].clone(), &target);
+        }
         d.api(calls[(round + 1) % 3].clone());
         d.settle(20 * SEC, 10 * MS);
         d.finish();
